@@ -192,6 +192,12 @@ func racepassMain(tier string) {
 	} else {
 		phase(dur, "AVX2 kernel")
 	}
+	// stage-1 kernels under contention: the race detector does not see what assembly writes, so
+	// the slice kernels of both families are called directly from one goroutine per processor,
+	// each on its own buffer, state and index array, and have to return what they return alone
+	kr, km := racepassKernels(dur / 8)
+	iters.Add(kr)
+	mism.Add(km)
 	iters.Add(coldRuns)
 	mism.Add(coldMism)
 	fmt.Printf("racepass: %d goroutine-programs run, %d mismatches\n", iters.Load(), mism.Load())
@@ -327,4 +333,80 @@ func (s *slowReader) Read(p []byte) (int, error) {
 		p = p[:s.n]
 	}
 	return s.r.Read(p)
+}
+
+// racepassKernels: see the call site.
+func racepassKernels(dur time.Duration) (runs, mism int64) {
+	type result struct {
+		processed uint64
+		st        simdjson.VerifS1State
+		idx       []uint32
+	}
+	mk := func(g int) []byte {
+		var sb strings.Builder
+		sb.WriteString("[")
+		for i := 0; sb.Len() < 6000+64*g; i++ {
+			fmt.Fprintf(&sb, `{"g%d":"a\\\"b%d","n":[%d,true,null],"s":"%s"},`, g, i, i*(g+7), strings.Repeat("x\\", (i+g)%9))
+		}
+		sb.WriteString("0]")
+		return append(make([]byte, 0, sb.Len()+128), sb.String()...)
+	}
+	one := func(avx512 bool, buf []byte, idx *[simdjson.VerifIndexSize]uint32) result {
+		var st simdjson.VerifS1State
+		st.Position = ^uint64(0)
+		n := simdjson.VerifStage1(avx512, buf, &st, idx, 0)
+		return result{n, st, append([]uint32(nil), idx[:st.IndexLen]...)}
+	}
+	same := func(a, b result) bool {
+		if a.processed != b.processed || a.st != b.st || len(a.idx) != len(b.idx) {
+			return false
+		}
+		for i := range a.idx {
+			if a.idx[i] != b.idx[i] {
+				return false
+			}
+		}
+		return true
+	}
+	fams := []bool{false}
+	if hasAVX512 {
+		fams = append(fams, true)
+	}
+	n := runtime.GOMAXPROCS(0)
+	if n < 2 {
+		n = 2
+	}
+	var r, m atomic.Int64
+	for _, fam := range fams {
+		bufs := make([][]byte, n)
+		want := make([]result, n)
+		for g := range bufs {
+			bufs[g] = mk(g)
+			want[g] = one(fam, bufs[g], new([simdjson.VerifIndexSize]uint32))
+		}
+		var wg sync.WaitGroup
+		var first sync.Once
+		deadline := time.Now().Add(dur)
+		for g := 0; g < n; g++ {
+			wg.Add(1)
+			go func(g int) {
+				defer wg.Done()
+				idx := new([simdjson.VerifIndexSize]uint32)
+				for time.Now().Before(deadline) {
+					for k := 0; k < 50; k++ {
+						got := one(fam, bufs[g], idx)
+						r.Add(1)
+						if !same(got, want[g]) {
+							m.Add(1)
+							first.Do(func() {
+								fmt.Printf("racepass-mismatch (stage-1 slice kernel, avx512=%v, goroutine %d of %d, each on its own buffer and state): processed=%d state=%+v %d indexes; alone: processed=%d state=%+v %d indexes\n", fam, g, n, got.processed, got.st, len(got.idx), want[g].processed, want[g].st, len(want[g].idx))
+							})
+						}
+					}
+				}
+			}(g)
+		}
+		wg.Wait()
+	}
+	return r.Load(), m.Load()
 }
